@@ -1,9 +1,10 @@
 package main
 
-// table.go: spec -> code.  Loads the transition table TLC emitted from
-// spec/Stackage.tla and replays it into the real package: every single
-// transition from a state built through the public API, every path up to a
-// depth from every initial configuration, and seeded random walks.
+// table.go: spec -> code.  Loads the transition table TLC emitted from a
+// state-machine module (Stackage.tla, CondMC.tla) and replays it into the
+// real package: every single transition from a state built through the
+// public API, every path up to a depth from every initial configuration,
+// and seeded random walks.
 
 import (
 	"bufio"
@@ -26,12 +27,12 @@ type TTrans struct {
 }
 
 type TState struct {
-	St   AState   `json:"st"`
-	Obs  any      `json:"obs"`
-	Dst  *AState  `json:"dst"`
-	DObs any      `json:"dobs"`
-	Init bool     `json:"init"`
-	Tr   []TTrans `json:"tr"`
+	St   json.RawMessage `json:"st"`
+	Obs  any             `json:"obs"`
+	Dst  json.RawMessage `json:"dst"`
+	DObs any             `json:"dobs"`
+	Init bool            `json:"init"`
+	Tr   []TTrans        `json:"tr"`
 }
 
 type Table struct {
@@ -40,11 +41,11 @@ type Table struct {
 	NTrans int
 }
 
-func pairKey(s AState, d *AState) string {
-	if d == nil {
-		return s.Key()
+func pairKey(s, d json.RawMessage) string {
+	if len(d) == 0 {
+		return canonJSON(s)
 	}
-	return s.Key() + "|" + d.Key()
+	return canonJSON(s) + "|" + canonJSON(d)
 }
 
 func LoadTable(path string) (*Table, error) {
@@ -82,66 +83,63 @@ func LoadTable(path string) (*Table, error) {
 	return t, sc.Err()
 }
 
-// Step describes one executed call with the spec's expectation.
+// RStep describes one executed call with the spec's expectation.
 type RStep struct {
-	C      Call     `json:"c"`
-	On     string   `json:"on"`
-	ExpRet []string `json:"exp_ret"`
-	ExpObs any      `json:"exp_obs,omitempty"`
-	ExpDObs any     `json:"exp_dobs,omitempty"`
+	C       Call     `json:"c"`
+	On      string   `json:"on"`
+	ExpRet  []string `json:"exp_ret"`
+	ExpObs  any      `json:"exp_obs,omitempty"`
+	ExpDObs any      `json:"exp_dobs,omitempty"`
 }
 
 // Replay is a self-contained failing (or sample) case.
 type Replay struct {
-	Property string   `json:"property"`
-	Kind     string   `json:"kind"` // ret | obs | panic | build
-	Init     AState   `json:"init"`
-	DInit    *AState  `json:"dinit,omitempty"`
-	Steps    []RStep  `json:"steps"`
-	Detail   []string `json:"detail"`
-	Class    string   `json:"class"`
+	Property string          `json:"property"`
+	Machine  string          `json:"machine"`
+	Kind     string          `json:"kind"` // ret | obs | panic | build
+	Init     json.RawMessage `json:"init"`
+	DInit    json.RawMessage `json:"dinit,omitempty"`
+	Steps    []RStep         `json:"steps"`
+	Detail   []string        `json:"detail"`
+	Class    string          `json:"class"`
 }
 
-// RunReplay executes a replay record on fresh objects and reports the first
-// disagreement (kind, detail) or "" if the real code agrees everywhere.
 func RunReplay(r *Replay) (string, []string) {
 	k, d, _ := RunReplayIdx(r)
 	return k, d
 }
 
-// RunReplayIdx additionally returns the index of the failing step.
+// RunReplayIdx executes a replay record on fresh objects and reports the
+// first disagreement (kind, detail, failing step) or "" if the real code
+// agrees everywhere.
 func RunReplayIdx(r *Replay) (string, []string, int) {
-	o := Build(r.Init)
-	var d *Obj
-	if r.DInit != nil {
-		d = Build(*r.DInit)
-	} else {
-		d = &Obj{}
+	m := machines[r.Machine]
+	if m == nil {
+		m = machines["stack"]
 	}
+	h := m.Build(r.Init, r.DInit)
 	for i, st := range r.Steps {
-		var ret []string
-		if st.On == "dst" {
-			ret = Apply(d, o, st.C)
-		} else {
-			ret = Apply(o, d, st.C)
-		}
+		ret := m.Apply(h, st.On, st.C)
 		if len(ret) > 0 && (ret[0] == "PANIC" || ret[0] == "DEADLOCK") && !(len(st.ExpRet) > 0 && st.ExpRet[0] == ret[0]) {
 			return "panic", []string{fmt.Sprintf("step %d %v: %v", i, st.C, ret)}, i
 		}
-		if lk := lockLeft(o, d); lk != "" && (ObsFields == nil || ObsFields["locked"]) {
+		if lk := m.LockLeft(h); lk != "" && (ObsFields == nil || ObsFields["locked"]) {
 			return "obs", []string{fmt.Sprintf("step %d %v: %s", i, st.C, lk), "locked: expected \"false\" observed \"true\""}, i
 		}
 		if !reflect.DeepEqual(ret, st.ExpRet) {
 			return "ret", []string{fmt.Sprintf("step %d %v: expected ret %v observed %v", i, st.C, st.ExpRet, ret)}, i
 		}
-		if st.ExpObs != nil {
-			if df := DiffObs(st.ExpObs, toGeneric(Observe(o.S))); len(df) > 0 {
-				return "obs", append([]string{fmt.Sprintf("step %d %v", i, st.C)}, df...), i
+		if st.ExpObs != nil || st.ExpDObs != nil {
+			o, d := m.Observe(h)
+			if st.ExpObs != nil {
+				if df := DiffObs(st.ExpObs, o); len(df) > 0 {
+					return "obs", append([]string{fmt.Sprintf("step %d %v", i, st.C)}, df...), i
+				}
 			}
-		}
-		if st.ExpDObs != nil && r.DInit != nil {
-			if df := DiffObs(st.ExpDObs, toGeneric(Observe(d.S))); len(df) > 0 {
-				return "obs", append([]string{fmt.Sprintf("step %d %v (destination)", i, st.C)}, df...), i
+			if st.ExpDObs != nil && len(r.DInit) > 0 {
+				if df := DiffObs(st.ExpDObs, d); len(df) > 0 {
+					return "obs", append([]string{fmt.Sprintf("step %d %v (destination)", i, st.C)}, df...), i
+				}
 			}
 		}
 	}
@@ -167,6 +165,7 @@ func lockLeft(objs ...*Obj) (msg string) {
 
 type Replayer struct {
 	T          *Table
+	M          Machine
 	Prop       string
 	Out        *json.Encoder
 	MaxReport  int
@@ -191,18 +190,18 @@ func (rp *Replayer) report(r Replay) {
 	}
 }
 
+func (rp *Replayer) newReplay(init *TState, steps []RStep) Replay {
+	return Replay{Property: rp.Prop, Machine: rp.M.Name(), Init: init.St, DInit: init.Dst, Steps: steps}
+}
+
 func (rp *Replayer) stepFor(ts *TState, tr *TTrans, withObs bool) (RStep, *TState, error) {
-	ns, err := ts.St.ApplyDelta(tr.D)
+	ns, err := applyDelta(ts.St, tr.D)
 	if err != nil {
 		return RStep{}, nil, err
 	}
-	var nd *AState
-	if ts.Dst != nil {
-		x, err := ts.Dst.ApplyDelta(tr.DD)
-		if err != nil {
-			return RStep{}, nil, err
-		}
-		nd = &x
+	nd, err := applyDelta(ts.Dst, tr.DD)
+	if err != nil {
+		return RStep{}, nil, err
 	}
 	st := RStep{C: tr.C, On: tr.On, ExpRet: tr.Ret}
 	var next *TState
@@ -213,7 +212,7 @@ func (rp *Replayer) stepFor(ts *TState, tr *TTrans, withObs bool) (RStep, *TStat
 		}
 		if withObs {
 			st.ExpObs = next.Obs
-			if nd != nil {
+			if len(nd) > 0 {
 				st.ExpDObs = next.DObs
 			}
 		}
@@ -227,12 +226,11 @@ func (rp *Replayer) Transitions() error {
 	for _, k := range rp.T.Order {
 		ts := rp.T.States[k]
 		// the built state itself must show the expected observables
-		r0 := Replay{Property: rp.Prop, Init: ts.St, DInit: ts.Dst,
-			Steps: []RStep{}}
-		if df := DiffObs(ts.Obs, toGeneric(Observe(Build(ts.St).S))); len(df) > 0 {
+		o, _ := rp.M.Observe(rp.M.Build(ts.St, ts.Dst))
+		if df := DiffObs(ts.Obs, o); len(df) > 0 {
+			r0 := rp.newReplay(ts, []RStep{{C: Call{"op": "build"}, ExpRet: []string{}}})
 			r0.Kind = "build"
 			r0.Detail = df
-			r0.Steps = []RStep{{C: Call{"op": "build"}}}
 			rp.report(r0)
 			continue
 		}
@@ -241,7 +239,7 @@ func (rp *Replayer) Transitions() error {
 			if err != nil {
 				return err
 			}
-			r := Replay{Property: rp.Prop, Init: ts.St, DInit: ts.Dst, Steps: []RStep{st}}
+			r := rp.newReplay(ts, []RStep{st})
 			rp.Steps++
 			if kind, det := RunReplay(&r); kind != "" {
 				r.Kind, r.Detail = kind, det
@@ -254,7 +252,7 @@ func (rp *Replayer) Transitions() error {
 	return nil
 }
 
-// Paths replays every path of exactly the given depth from every initial
+// PathsDepth replays every path of exactly the given depth from every initial
 // state (prefixes are covered by the smaller depths); only the last step is
 // compared in full, earlier steps were compared as shorter paths.
 func (rp *Replayer) PathsDepth(depth int, inits []string) error {
@@ -268,7 +266,7 @@ func (rp *Replayer) PathsDepth(depth int, inits []string) error {
 			}
 			ns := append(append([]RStep{}, steps...), st)
 			if left == 1 {
-				r := Replay{Property: rp.Prop, Init: init.St, DInit: init.Dst, Steps: ns}
+				r := rp.newReplay(init, ns)
 				rp.Paths++
 				rp.Steps += len(ns)
 				if kind, det := RunReplay(&r); kind != "" {
@@ -318,7 +316,7 @@ func (rp *Replayer) Walks(rng *rand.Rand, n, length int, inits []string) error {
 		if len(steps) == 0 {
 			continue
 		}
-		r := Replay{Property: rp.Prop, Init: init.St, DInit: init.Dst, Steps: steps}
+		r := rp.newReplay(init, steps)
 		rp.Paths++
 		rp.Steps += len(steps)
 		if kind, det, idx := RunReplayIdx(&r); kind != "" {
